@@ -251,6 +251,13 @@ def run_shard(spec, ctx):
             mix = [r.choice(opens) for _ in range(d)]
             check_text(ctx, "".join(o for o, c in mix) + "1" + "".join(c for o, c in reversed(mix)), deep=False)
             ctx.count("deep_nesting_texts", 2 * len(opens) + 1)
+        # digit runs with separators in every position (a validating pattern that backtracks shows as a hang)
+        for n in (20, 25, 30, 35, 40, 60, 100, 400):
+            for text in ("9" * n + "_", "_" + "9" * n, "9" * n + "__1", "1__" + "9" * n, "9" * n + "_.5", "1." + "3" * n + "_", "1._" + "3" * n,
+                         "0x" + "f" * n + "_", "0b" + "1" * n + "__0", "9" * n + "_a", "9" * n + "_ + 1", "[" + "9" * n + "_]", "x" + "9" * n + "_",
+                         "1" * n + "." + "2" * n + "." + "3" * n, "9" * n + "e5", "'" + "9" * n + "_'", "9_" * n, "9_" * n + "_"):
+                check_text(ctx, text, deep=False)
+                ctx.count("long_token_texts")
         # very long single tokens
         for n in (100, 1000, 4299, 4300, 4301, 5000, 20000):
             for text in ("9" * n, "1" + "0" * n, "0x" + "f" * n, "0b" + "1" * n, "1_" * n + "1", "0." + "3" * n, "9" * n + ".5",
